@@ -1285,7 +1285,11 @@ func (x *c35Run) finishCase() {
 	fs, _ := x.r.cli.snapshot()
 	for i := range fs {
 		if fs[i].Bad != "" {
-			x.fail("bad-server-frame", "server sent a malformed frame: %s (%v)", fs[i].Bad, fs[i])
+			key := "bad-server-frame"
+			if strings.Contains(fs[i].Bad, "dynamic table size update MUST occur at the beginning") {
+				key += "/hpack-size-update-mid-block"
+			}
+			x.fail(key, "server sent a malformed frame: %s (%v)", fs[i].Bad, fs[i])
 			return
 		}
 	}
